@@ -169,6 +169,54 @@ def site_what(fn, bb, default):
     return "%s::%s <- %s" % tv
 
 
+# --------------------------------------------------------------------------- which struct a field projection reads
+def _unref(ty):
+    """One level of indirection off a type string (`&T`, `&mut T`, `Box<T, A>`)."""
+    m = re.match(r"^&('[^ ]+ )?(mut )?(.*)$", ty)
+    if m:
+        return m.group(3)
+    m = re.match(r"^std::boxed::Box<(.*), std::alloc::Global>$", ty)
+    if m:
+        return m.group(1)
+    return None
+
+
+def field_owner_adts(facts, fn, place, field_name):
+    """ADT ids owning the projection elements named `field_name` in `place`, found by walking the place's type from
+    the local's declared type through derefs, downcasts and fields of ADTs of the fact base.  An element whose owner
+    cannot be determined (a generic field type, a closure capture, an index) is reported as None -- callers treat that
+    as "could be any struct" (fail closed)."""
+    out = []
+    ty = fn.local_ty(place["l"])
+    variant = None
+    for e in place["p"]:
+        if e == "*":
+            ty = _unref(ty) if ty is not None else None
+            continue
+        if not isinstance(e, dict):
+            ty = None
+            continue
+        if "dc" in e:
+            variant = e["dc"]
+            continue
+        if "f" in e:
+            adt = facts.adt_of_type(ty) if ty is not None else None
+            rec = facts.adts.get(adt) if adt else None
+            if e.get("n") == field_name:
+                out.append(adt if rec is not None else None)
+            nxt = None
+            if rec is not None:
+                for v in rec["variants"]:
+                    if (variant is None and len(rec["variants"]) == 1) or v["name"] == variant:
+                        if e["f"] < len(v["fields"]) and str(v["fields"][e["f"]]["name"]) == str(e.get("n")):
+                            nxt = v["fields"][e["f"]]["ty"]
+            ty = nxt
+            variant = None
+            continue
+        ty = None
+    return out
+
+
 # --------------------------------------------------------------------------- refinement types by interpretation
 _GUARD = {ESC: lambda c, s: c or s, CESC: lambda c, s: c}
 _BOOL_SUMMARIES = {"core::bool::<impl bool>::then_some": absint.GENERIC_SUMMARIES["std::bool::<impl bool>::then_some"],
@@ -197,6 +245,71 @@ def _wrappers_in(v, out, depth=0):
             _wrappers_in(x, out, depth + 1)
 
 
+class TableInterp(absint.Interp):
+    """absint interpreter that also executes lookups in constant tables: a constant array (rendered by the driver as
+    `{"list": [..]}` with tuples, field-less enum values and fn pointers as elements) is a concrete array value that
+    slice::iter / find / find_map / position walk (lib_c07.ITER_SUMMARIES), and a call through a fn pointer taken from
+    such a table is the call of the function it names (so a summary / crate-local body applies to it)."""
+
+    def __init__(self, facts, order, summaries=None, **kw):
+        from .lib_c07 import ITER_SUMMARIES
+        sm = dict(ITER_SUMMARIES)
+        sm.update(summaries or {})
+        absint.Interp.__init__(self, facts, order, summaries=sm, **kw)
+
+    def const_value(self, val, what):
+        if not isinstance(val, dict):
+            raise absint.LeavesFragment("constant %s has an element the driver does not render" % what)
+        if "list" in val:
+            return ("tuple", [self.const_value(x, what) for x in val["list"]], "array")
+        if "tuple" in val:
+            return absint.V_tuple([self.const_value(x, what) for x in val["tuple"]])
+        if "fn" in val:
+            return ("zst", val["fn"])
+        if "variant" in val and "adt" in val:
+            return absint.V_enum(val["adt"], self.vidx(val["adt"], val["variant"]), val["variant"], [])
+        if "int" in val:
+            return absint.V_int(val["int"])
+        if "str" in val:
+            return absint.V_opaque("str:" + val["str"])
+        raise absint.LeavesFragment("constant %s has an element the driver does not render" % what)
+
+    def operand(self, frame, op):
+        if op.get("k") == "const" and not op.get("fn") and isinstance(op.get("val"), dict) and "list" in op["val"]:
+            return self.const_value(op["val"], op.get("path") or op.get("ty"))
+        return absint.Interp.operand(self, frame, op)
+
+    def concrete(self, v, depth=0):
+        """Structural form of a value made only of enum variants, tuples, structs, ints and bools; None otherwise."""
+        v = self.deref_all(v)
+        if v is None or depth > 8:
+            return None
+        if v[0] in ("int", "bool"):
+            return (v[0], int(v[1]))
+        if v[0] == "enum":
+            xs = [self.concrete(x, depth + 1) for x in v[4]]
+            return None if None in xs else ("enum", v[1], v[2], tuple(xs))
+        if v[0] in ("tuple", "struct"):
+            xs = [self.concrete(x, depth + 1) for x in (v[1] if v[0] == "tuple" else v[2])]
+            return None if None in xs else (v[0], tuple(xs))
+        return None
+
+    def do_call(self, fn, frame, t, bb):
+        m = absint.CMP_RX.match(t.get("callee") or "")
+        if m and m.group(1) in ("eq", "ne") and len(t["args"]) == 2:
+            # derived (in)equality of two fully concrete values (`class_of(status) == Some(ErrorClass::Client)`)
+            a, b = [self.concrete(self.operand(frame, x)) for x in t["args"]]
+            if a is not None and b is not None and a[0] == b[0] == "enum" and a[1] == b[1]:
+                return absint.V_bool((a == b) == (m.group(1) == "eq"))
+        if t.get("callee") is None and t.get("callee_op") is not None:
+            target = self.deref_all(self.operand(frame, t["callee_op"]))
+            if target is None or target[0] != "zst" or not target[1]:
+                raise absint.LeavesFragment("call through a function pointer that is not a known function at %s bb%d" % (fn.id, bb))
+            t = dict(t, callee=target[1])
+            t.pop("resolved", None)
+        return absint.Interp.do_call(self, fn, frame, t, bb)
+
+
 def refinement_by_interpretation(facts, f):
     """Decide "every ErrorStatusCode / ClientErrorStatusCode value this function produces wraps a status for which
     is_client_error() || is_server_error() / is_client_error() holds" by running the function (abstract interpreter,
@@ -204,8 +317,9 @@ def refinement_by_interpretation(facts, f):
     status it receives.  Parameters of a refinement type are assumed to satisfy their own invariant (induction over the
     constructors, all of which are instances of the rule).  Any operation outside the fragment (another predicate,
     arithmetic on the status, an unknown callee) leaves it undecided.  Shape-independent: `if a || b`, a tuple match,
-    `cond.then_some(Self(status)).ok_or(..)` (the wrapper is built eagerly but only observable when cond holds) and
-    delegation to another constructor function are all just executions.
+    `cond.then_some(Self(status)).ok_or(..)` (the wrapper is built eagerly but only observable when cond holds),
+    delegation to another constructor function, and a class looked up in a constant table of (predicate fn pointer,
+    class) pairs (TableInterp) are all just executions.
     Returns (ok, detail)."""
     argc = f.raw.get("argc", 0)
     tags = []
@@ -244,7 +358,7 @@ def refinement_by_interpretation(facts, f):
                 if adt is not None:
                     v = absint.V_struct(adt, [v])
                 args.append(absint.V_ref(absint.Cell(v)) if isref else v)
-            it = absint.Interp(facts, {}, summaries=summaries, choices=choices, max_steps=4000)
+            it = TableInterp(facts, {}, summaries=summaries, choices=choices, max_steps=4000)
             res = it.call_fn(f, list(args))
             # what the caller can observe afterwards: the result and whatever was written through a reference parameter
             return it, absint.V_tuple([res] + args)
